@@ -2675,6 +2675,9 @@ class SigGen:
                 call_kw.append((p["name"], "'K%s'" % p["name"]))
         if any(p["kind"] == "dstar" for p in params) and r.random() < 0.5:
             call_kw.append(("extra", "'X'"))
+        if nposonly and r.random() < 0.25:
+            # a positional-only parameter's NAME used as a keyword: Python refuses it, or hands it to **kw
+            call_kw.append(("p0", "'P'"))
         return params, call_pos, call_kw
 
 
@@ -2755,6 +2758,15 @@ def oracle_signatures(ctx, n):
         ([{"name": "p0", "kind": "pos", "default": None}, {"name": "p1", "kind": "pos", "default": "'x'"},
           {"name": "", "kind": "bare", "default": None}, {"name": "a", "kind": "kw", "default": None},
           {"name": "b", "kind": "kw", "default": "9"}], ["1"], [("a", "2")]),
+        # positional-only: bound like ordinary positional parameters ...
+        ([{"name": "p0", "kind": "posonly", "default": None}, {"name": "", "kind": "slash", "default": None},
+          {"name": "p1", "kind": "pos", "default": None}], ["1", "2"], []),
+        ([{"name": "p0", "kind": "posonly", "default": "11"}, {"name": "", "kind": "slash", "default": None}], [], []),
+        # ... and their names used as keywords (Python: the name goes to **kw, or the call is refused)
+        ([{"name": "p0", "kind": "posonly", "default": None}, {"name": "", "kind": "slash", "default": None},
+          {"name": "kw", "kind": "dstar", "default": None}], ["1"], [("p0", "'P'")]),
+        ([{"name": "p0", "kind": "posonly", "default": None}, {"name": "", "kind": "slash", "default": None}], [],
+         [("p0", "'P'")]),
     ]
     cases = fixed + [g.gen() for _ in range(n)]
     for i, (params, cp, ck) in enumerate(cases):
@@ -2798,8 +2810,14 @@ def oracle_signatures(ctx, n):
                     break
             if not changed and cp and fails(params, cp[:-1], ck):
                 cp, changed = cp[:-1], True
+            if not changed:
+                for j in range(len(ck)):
+                    if fails(params, cp, ck[:j] + ck[j + 1:]):
+                        ck, changed = ck[:j] + ck[j + 1:], True
+                        break
         kinds = sorted({p["kind"] for p in params})
-        key = tuple(kinds)
+        by_kw = any(k in [p["name"] for p in params if p["kind"] == "posonly"] for k, _ in ck)
+        key = tuple(kinds) + (by_kw,)
         ctx.branch("oracle.signatures:VIOLATION:" + "+".join(kinds))
         if key in reported:
             continue
@@ -2807,7 +2825,7 @@ def oracle_signatures(ctx, n):
         ctx.violation("signature-binds-different-values",
                       {"input": "def zz(%s) called as zz(%s)" % (sig_text(params), call_text(cp, ck)), "slot": slot,
                        "params": params, "call_pos": cp, "call_kw": [list(kv) for kv in ck], "kinds": "+".join(kinds),
-                       "bare_star": "bare" in kinds, "posonly": "posonly" in kinds},
+                       "bare_star": "bare" in kinds, "posonly": "posonly" in kinds, "posonly_by_keyword": by_kw},
                       "template gives %r, the native function gives %r" % (sig_template(slot, params, cp, ck), sig_native(params, cp, ck)),
                       "oracle.signatures")
 
